@@ -1,7 +1,7 @@
 (* HashInj.v — every step of FastHash is a bijection of the 64-bit running state, so for a
    fixed key the map seed -> fasthash64 key seed is injective: two different rows of a
    count-min / heavy-hitter sketch (seed = row index) never apply the same function. *)
-From Coq Require Import ZArith List Lia Bool.
+From Coq Require Import ZArith List Lia Bool String.
 From Sketchnu Require Import Machine BitLemmas Consts Hashes HashSpec HashProofs.
 Import ListNotations.
 Open Scope Z_scope.
@@ -145,3 +145,11 @@ Proof.
   intros Hw. unfold hash_bucket.
   pose proof (Z.mod_pos_bound (fasthash64 k (Z.of_nat r)) (Z.of_nat width) ltac:(lia)). lia.
 Qed.
+
+(* every kernel that maps a key to its counters computes the column, in its loop over the rows, with the expression
+   read from the source on this run (the Consts.rowhash constants): the row index is the seed and the reduction is modulo width *)
+Lemma rowhash_sites_ok :
+  let e := "for row in range(depth): fasthash64(key, row) % width"%string in
+  Consts.rowhash_query_linear = e /\ Consts.rowhash_query_log16 = e /\ Consts.rowhash_query_log8 = e /\
+  Consts.rowhash_hh_add = e /\ Consts.rowhash_hh_max_count = e.
+Proof. repeat split; reflexivity. Qed.
